@@ -64,6 +64,17 @@ func buildCorpus() {
 			}
 		}
 	}
+	// two frames on one stream: an object whose unknown field holds an instance of a class missing from the
+	// type map (it is skipped but keeps its reference ordinal), then a frame that refers to that ordinal
+	{
+		inner := &rh.Class{Name: "Inner", Fields: []string{"a", "zzExtra", "s"}}
+		unk := &rh.Class{Name: "com.example.NotInTheTypeMap", Fields: []string{"q"}}
+		obj := &rh.Value{K: rh.Object, Class: inner, Elems: []*rh.Value{rh.IntV(5), {K: rh.Object, Class: unk, Elems: []*rh.Value{rh.IntV(1)}}, rh.StringV("x")}}
+		frame1 := rh.Encode(obj)
+		add("stream: skipped instance then a reference to it", append(append([]byte{}, frame1...), 0x51, 0x91))
+		add("stream: skipped instance then a reference to the outer object", append(append([]byte{}, frame1...), 0x51, 0x90))
+		add("stream: object, then the same class again by index", append(append([]byte{}, frame1...), 0x60, 0x92, 'N', 0x01, 'y'))
+	}
 	// a graph with references and a map with a reference
 	n := &zoo.Node{V: 1}
 	n.Next = &zoo.Node{V: 2, Next: n}
@@ -367,6 +378,54 @@ func ampCases() []ampCase {
 	}
 }
 
+// ---- self-containing values ------------------------------------------------------------
+
+// cyclicInputs are small well-formed messages in which a list or map contains itself (as element, key
+// or value), placed where the decoder must convert or reject them; anything that formats such a value
+// (an error message with %v) recurses for ever.
+func cyclicInputs() []corpusMsg {
+	str := func(s string) []byte { return append([]byte{byte(len(s))}, s...) }
+	cat := func(parts ...[]byte) []byte {
+		var b []byte
+		for _, p := range parts {
+			b = append(b, p...)
+		}
+		return b
+	}
+	selfList := func(ord byte) [][]byte {
+		return [][]byte{
+			{0x79, 0x51, 0x90 + ord},                   // [self]
+			{0x7a, 0x91, 0x51, 0x90 + ord},             // [1, self]
+			{0x57, 0x51, 0x90 + ord, 'Z'},              // variable list [self]
+			cat([]byte{0x71}, str("[int"), []byte{0x51, 0x90 + ord}),    // typed list [self]
+			cat([]byte{0x71}, str("[string"), []byte{0x51, 0x90 + ord}), // typed (registered) list [self]
+			{'H', 0x51, 0x90 + ord, 0x91, 'Z'},         // map {self: 1}
+			{'H', 0x91, 0x51, 0x90 + ord, 'Z'},         // map {1: self}
+			{'H', 0x01, 'a', 0x51, 0x90 + ord, 'Z'},    // map {"a": self}
+			cat([]byte{'M'}, str("Inner"), []byte{'H', 0x01, 'a', 0x51, 0x91 + ord, 'Z', 0x91, 'Z'}), // typed map (struct type) whose key is a self-containing map
+			cat([]byte{'M'}, str("NamedMap"), []byte{0x79, 0x51, 0x91 + ord, 0x91, 'Z'}),             // typed map whose key is a self-containing list
+		}
+	}
+	var l []corpusMsg
+	add := func(n string, b []byte) { l = append(l, corpusMsg{n, b}) }
+	for i, b := range selfList(0) {
+		add(fmt.Sprintf("top-level #%d", i), b)
+	}
+	// as the value of a struct field of slice / map / struct / scalar type (ordinal 0 is the object)
+	fields := []struct{ cls, fld string }{{"SlI32", "l"}, {"SlStr", "l"}, {"MpStrI32", "m"}, {"Nested", "in"}, {"Inner", "a"}, {"SlAny", "l"}, {"SlF64", "l"}}
+	for _, f := range fields {
+		for i, b := range selfList(1) {
+			add(fmt.Sprintf("field %s.%s #%d", f.cls, f.fld, i), cat([]byte{'C'}, str(f.cls), []byte{0x91}, str(f.fld), []byte{0x60}, b))
+		}
+	}
+	// as an element of a typed list of ints / strings
+	for i, b := range selfList(1) {
+		add(fmt.Sprintf("element of [int #%d", i), cat([]byte{0x71}, str("[int"), b))
+		add(fmt.Sprintf("element of [string #%d", i), cat([]byte{0x71}, str("[string"), b))
+	}
+	return l
+}
+
 // ---- nesting ladders ------------------------------------------------------------------
 
 func ladder(kind int, depth int) []byte {
@@ -399,6 +458,18 @@ func ladder(kind int, depth int) []byte {
 			b = append(b, 0x71, 0x90)
 		}
 		b = append(b, 'N')
+	case 5, 6, 7: // x79 / x57 / H ladders that end in an error at the bottom (unknown tag)
+		for i := 0; i < depth; i++ {
+			switch kind {
+			case 5:
+				b = append(b, 0x79)
+			case 6:
+				b = append(b, 0x57)
+			default:
+				b = append(b, 'H', 0x91)
+			}
+		}
+		b = append(b, 0x45)
 	case 4: // class definition + instance with a self-typed field
 		b = append(b, 'C', 0x04, 'N', 'o', 'd', 'e', 0x92, 0x01, 'v', 0x04, 'n', 'e', 'x', 't')
 		for i := 0; i < depth; i++ {
@@ -409,7 +480,7 @@ func ladder(kind int, depth int) []byte {
 	return b
 }
 
-var ladderNames = []string{"x79 lists", "x57 lists", "H maps", "typed lists", "objects with a self-typed field"}
+var ladderNames = []string{"x79 lists", "x57 lists", "H maps", "typed lists", "objects with a self-typed field", "x79 lists ending in an unknown tag", "x57 lists ending in an unknown tag", "H maps ending in an unknown tag"}
 
 func init() {
 	core.Register(&core.Prop{
@@ -532,6 +603,28 @@ func init() {
 				c.Cover("amplification")
 				c.Sample("x58 I 7fffffff 91 : untyped list declaring 2^31-1 elements followed by one")
 			}})
+			// self-containing values
+			us = append(us, core.Unit{Name: "cycles", Cost: 300, Run: func(c *core.Ctx) {
+				for _, m := range cyclicInputs() {
+					for cfg := 0; cfg < 3; cfg++ {
+						for entry := 0; entry < 3; entry++ {
+							if !c.Begin() {
+								continue
+							}
+							c.NontrivialN(1)
+							c.Res.States++
+							desc := fmt.Sprintf("self-containing value, %s: % x (%s, %s)", m.name, m.b, c14Configs[cfg], c14Entries[entry])
+							out := runHostile(c, entry, m.b, guard.NewReader(m.b), c14TypeMap(cfg), desc, "cycles", true)
+							c.Outcome(out)
+							if entry == 0 && out != "returned" {
+								break
+							}
+						}
+					}
+				}
+				c.Cover("cycles")
+				c.Sample("C x05 SlI32 x91 x01 l x60 x79 Q x91 : a []int32 field fed a list that contains itself")
+			}})
 			// (4) ladders
 			for k := range ladderNames {
 				k := k
@@ -560,6 +653,6 @@ func init() {
 			}
 			return us
 		},
-		RequireCover: func(string) []string { return []string{"lazy-full", "lazy-tags", "edit", "amplification", "ladder"} },
+		RequireCover: func(string) []string { return []string{"lazy-full", "lazy-tags", "edit", "amplification", "ladder", "cycles"} },
 	})
 }
